@@ -42,9 +42,17 @@ def fuse_traces(tier, rep):
             rows = [list(r) for r in itertools.product(pts, repeat=m)]
             ev = []
             for ss in itertools.product((-1, 1), repeat=m):
+                # the SAME argument objects serve both calls (new_signature = -1 first): an implementation that scales or reduces its arguments in place answers the
+                # second call with the wrong signs / charges, and the arguments are compared with their originals afterwards
+                arr = np.array(rows, dtype=np.int64).reshape(len(rows), m, len(mod))
+                arr0 = arr.copy()
+                ssv = ss if m % 2 else np.array(ss, dtype=np.int64)       # documented forms: tuple, or int64 vector
                 for snew in (-1, 1):
-                    arr = np.array(rows, dtype=np.int64).reshape(len(rows), m, len(mod))
-                    res = cls.fuse(arr, ss if m % 2 else np.array(ss, dtype=np.int64), snew)
+                    res = cls.fuse(arr, ssv, snew)
+                    if not (np.array_equal(arr, arr0) and tuple(int(x) for x in ssv) == tuple(ss)):
+                        rep.violation('fuse-arguments-changed:%s' % name, '%s.fuse(charges, signatures=%s, new_signature=%d) changed its arguments in place (signatures now %s)' % (name, ss, snew, list(ssv)),
+                                      {'op': 'fuse-args', 'sym': name, 'ss': list(ss), 'snew': snew})
+                        arr, ssv = arr0.copy(), (ss if m % 2 else np.array(ss, dtype=np.int64))
                     res = np.asarray(res).reshape(len(rows), len(mod)).tolist()
                     for k0 in range(0, len(rows), 1500):   # one vectorised call, logged in chunks
                         ev.append({'op': 'fuse', 'sym': name, 'ss': list(ss), 'snew': snew, 'ts': rows[k0:k0 + 1500], 'res': res[k0:k0 + 1500]})
